@@ -38,7 +38,7 @@ KIND_OF = {"query": "QUERY", "header": "HEADERS", "cookie": "COOKIES", "path": "
 def biased_plan(draw):
     """Shapes the statement names explicitly."""
     dialect = draw(st.sampled_from(["3.0", "3.0", "3.1", "2.0"]))
-    shape = draw(st.sampled_from(["no-inputs", "empty-body", "string-header", "string-path", "string-cookie", "ap-only-body", "enum-param", "bounded-param", "form-body", "exclusive-31", "string-header+int-cookie", "two-media-types", "string-path+int-query", "mixed-negatability-bodies", "mixed-negatability-bodies", "string-path+int-path", "string-path+int-path"]))
+    shape = draw(st.sampled_from(["no-inputs", "empty-body", "string-header", "string-path", "string-cookie", "ap-only-body", "enum-param", "bounded-param", "form-body", "exclusive-31", "string-header+int-cookie", "two-media-types", "string-path+int-query", "mixed-negatability-bodies", "mixed-negatability-bodies", "string-path+int-path", "string-path+int-path", "minlength-header", "minlength-cookie"]))
     plan = {"dialect": dialect, "method": "post", "path": "/t", "params": [], "bodies": [], "body_required": True, "schemas": {}, "security": None, "shape": shape}
 
     def param(name, loc, schema, witness, required=True):
@@ -51,6 +51,12 @@ def biased_plan(draw):
     elif shape == "string-path":
         plan["params"] = [param("id", "path", {"type": "string"}, "a")]
         plan["path"] = "/t/{id}"
+    elif shape == "minlength-header" or (shape == "minlength-cookie" and dialect != "2.0"):
+        # the only thing to violate is "not empty" - and an empty header / cookie value can be sent
+        loc, name = ("header", "X-Val") if shape == "minlength-header" else ("cookie", "sid")
+        plan["params"] = [param(name, loc, {"type": "string", "minLength": 1}, "a")]
+        if draw(st.booleans()):
+            plan["params"].append(param("X-Any" if loc == "header" else "other", loc, {"type": "string"}, "b", draw(st.booleans())))
     elif shape == "string-cookie" and dialect != "2.0":
         plan["params"] = [param("sid", "cookie", {"type": "string"}, "a", draw(st.booleans()))]
     elif shape == "ap-only-body":
@@ -187,8 +193,8 @@ def _clearly_violable_param(p) -> bool:
     t = s.get("type")
     if t in ("integer", "number", "boolean"):
         return True
-    if t == "array":
-        return False
+    if t == "string" and p["in"] in ("header", "cookie") and p.get("required") and set(s) == {"type", "minLength"} and s["minLength"] >= 1:
+        return True  # the empty value violates it and can be sent in these locations
     return False
 
 
